@@ -6,6 +6,7 @@ CONSTANTS
   BinOps <- MC_OpsWide
   Maps <- MC_MapsWords
   OnePairs <- MC_PairsWords
+  Routes = {}
   MaxUnits = 3
   MinUnits = 0
   MaxDepth = 1
